@@ -70,7 +70,7 @@ CHECKS.update({
 })
 
 CHECKS.update({
- "C10": ("table-driven: every (evaluator, spelling) x dense argument grid (exhaustive) + random log-uniform arguments (proptest); oracles: host libm, exact closed forms, tgamma, defining identity of Lambert W",
+ "C10": ("table-driven: every (evaluator, spelling) x dense argument grid (exhaustive) + random log-uniform arguments (proptest); oracles: host libm, exact closed forms, tgamma, defining identity and an independent Halley iteration for Lambert W, C08's principal-branch reference for the eval_complex names",
          "Exploration: the whole finite vocabulary of functions, aliases, postfix operators, brackets and constants is crossed with a fixed argument grid per evaluator and then sampled with random decimal-string arguments; exact functions compared exactly, the others at the 1e-9 the property states, eval_i64 real-valued functions within 1.",
          "Trusts glibc's libm (through Rust std and tgamma via FFI) as the mathematical reference; points where the function is undefined, within 0.01 of a gamma pole, or not representable in the evaluator's type are skipped and counted.", "4/C10"),
 })
@@ -78,7 +78,7 @@ CHECKS.update({
 CHECKS.update({
  "C08": ("independent pair-arithmetic reference (component formulas, exp/ln/atan2 definitions), validity predicates for inverse functions, differential against eval_f64 on real operands; exhaustive literal/real grids + random trees (proptest)",
          "Exploration: every literal form and every operator/function on in-domain real operands exhaustively; random exact-operator trees compared bit for bit; every operator/function spelling applied at the root of random exact subtrees over generic complex operands compared at the tolerance the property states, inverse functions through their defining identity and principal range.",
-         "Arguments within 1e-3 of a branch cut or of zero modulus are skipped and counted; approximate nodes below the root are not asserted (error amplification).", "4/C08"),
+         "Operands within 1e-3 of a branch cut (but not exactly on it) or of zero modulus, above 1e3 in modulus, and library-valued operands that are not generic are skipped and counted; exactly on a cut either one-sided limit is accepted; an approximate node below the root is judged one step at a time on the library's own operand values. Three recorded findings (asinh/atanh/atan of arguments below 1e-3) are printed as KNOWN-FINDING.", "4/C08, 10, 11"),
 })
 
 CHECKS.update({
@@ -135,11 +135,11 @@ def main():
         },
         "engines": [
             {"name": "scverif", "path": "/verif/harness", "serves_properties": sorted(CHECKS.keys()),
-             "kind_free_text": "Rust property-based testing harness: proptest TestRunner over choice sequences (fixed seeds, shrinking), bounded-exhaustive enumerators, reference lexer/parser/evaluators as oracles, built in two profiles (overflow checks on/off) against /repo's working tree"},
+             "kind_free_text": "Rust property-based testing harness: proptest TestRunner over choice sequences (fixed seeds, shrinking), bounded-exhaustive enumerators, reference lexer/parser/evaluators as oracles, built against /repo's working tree in three configurations: overflow checks off and on with the verif_hooks feature (step budget), and without the feature (the crate as it ships); every check except C02 runs on all the builds that apply to it"},
         ],
         "checks": checks,
         "not_applicable": na,
-        "notes": "Property-based testing and fuzzing only. ./check <ID> quick|thorough; VERIF_SEED selects the PRNG seed. Exit 0 = held, 1 = VIOLATION lines, 2 = inconclusive. known_findings.txt lists repaired defects (fixed:) and any recorded ones (known:).",
+        "notes": "Property-based testing and fuzzing only. ./check <ID> quick|thorough; VERIF_SEED selects the PRNG seed. Exit 0 = held, 1 = VIOLATION lines, 2 = inconclusive. known_findings.txt lists repaired defects (fixed:, suppress nothing) and recorded ones (known:, three for C08, printed as KNOWN-FINDING on every run of ./check C08). seeded/ holds 159 independently produced changes to /repo with their detection records (DESIGN.md section 12).",
     }
     if not na:
         m["not_applicable"] = []
